@@ -95,6 +95,13 @@ def correspondence(ctx, batch):
         if any(n in ("post_init_converters", "convert_unicode", "max_literals") for n in names):
             continue
         batch.add({"op": "kwargs", "in": items}, stages.impl_call(run_kw), {"items": items})
+    # the remaining option mapping of set_args: one anchored pattern per --dict-keys-regex expression, fields, preamble
+    pats = [r"\d+", r"k\d", r"[a-z]+", r"(id|name)", r".*", r"x|y", ""]
+    for _ in range(ctx.n(150, 2000)):
+        stages.stage_setargs(batch, [rng.choice(["meta=true", "a=b", '"x=1"']) for _ in range(rng.randint(0, 2))],
+                             rng.sample(pats, k=rng.choice([0, 1, 2, 2, 3])), rng.sample(gen.WORDS, k=rng.choice([0, 1, 2])),
+                             rng.random() < .4, rng.choice([None, "", "# x", "  # y \n", "import os\n\nX = 1\n", " \u2028 "]))
+    stages.stage_spaces(batch)
     comps = ["data", "sub", "*.json", "file?.json", "**", "a.json", "x*y", "."]
     for _ in range(ctx.n(200, 3000)):
         parts = [rng.choice(comps) for _ in range(rng.randint(1, 4))]
@@ -271,6 +278,18 @@ def boundary_case(rng):
     return [sample], {"merge": ["percent_%d" % n]}, ["--merge", "percent_%d" % n]
 
 
+def dkr_case(rng):
+    """objects whose keys are covered by one expression, by several only jointly, or by none, with two or three
+    --dict-keys-regex expressions: the documented mapping is one anchored pattern per expression"""
+    pats = rng.sample([r"\d+", r"k\d", r"[a-z]+", r"x|y"], k=rng.choice([2, 2, 3]))
+    sample = {"digits": {"1": 1, "22": 2}, "ks": {"k1": 1, "k3": 2}, "words": {"ab": 1, "cd": 2},
+              "mixed1": {"7": 1, "k2": 2}, "mixed2": {"7": 1, "seven": 2}, "mixed3": {"k1": 1, "x": 2, "abc": 3},
+              "none": {"A-1": 1, "B-2": 2}}
+    keys = list(sample)
+    rng.shuffle(keys)
+    return [{k: sample[k] for k in keys[:rng.randint(3, 7)]}], {"dkr": pats}, ["--dkr"] + pats
+
+
 def falsify(ctx):
     rng = ctx.rng("fals")
     n = ctx.n(90, 1800)
@@ -279,7 +298,7 @@ def falsify(ctx):
         for i in range(ctx.n(16, 120)):
             d = os.path.join(root, "b%d" % i)
             os.makedirs(d)
-            samples, opts, oargv = boundary_case(rng)
+            samples, opts, oargv = boundary_case(rng) if i % 2 == 0 else dkr_case(rng)
             clitools.write_files(d, {"b.json": samples})
             full = ["-m", "Root", "b.json"] + oargv
             jobs.append((full, d, ctx.repo))
